@@ -143,8 +143,8 @@ def gen_3(ctx, rep):
     cfg = ctx.cfg(s)
     dels = [n for n in cfg.nodes if n.kind == 'stmt' and isinstance(n.ast, ast.Delete)]
     for d in dels:
-        ok = only_via(cfg, d, lambda e: isinstance(e, ast.Compare) and isinstance(e.ops[0], ast.Eq)
-                      and 'state' in norm(e.left) and 'state' in norm(e.comparators[0]), 'T')
+        ok = only_via(cfg, d, lambda e: isinstance(e, ast.Compare) and len(e.ops) == 1 and isinstance(e.ops[0], ast.Eq)
+                      and isinstance(e.left, ast.Name) and isinstance(e.comparators[0], ast.Name), 'T')
         lst, i = None, None
         p = getattr(d.ast, '_parent', None)
         body = p.body if p is not None and d.ast in getattr(p, 'body', []) else []
